@@ -265,7 +265,8 @@ Proof.
   - rewrite replace_node_ND. cbn [node_ids] in Hn. destruct (Nat.eqb id h) eqn:E.
     { apply Nat.eqb_eq in E. exfalso. apply Hn. left. exact E. }
     f_equal. rewrite <- (map_id d) at 2. apply map_ext_in. intros [k x] Hx. cbn [fst snd].
-    rewrite Forall_forall in IH. rewrite (IH (k, x) Hx); auto.
+    rewrite Forall_forall in IH. pose proof (IH (k, x) Hx) as Hk. cbn [snd] in Hk.
+    rewrite Hk; auto.
     intros Hin. apply Hn. right. apply in_flat_map. exists (k, x). auto.
 Qed.
 
